@@ -331,6 +331,39 @@ func c08(c *Ctx) {
 			}
 		}
 	}
+	// components of one held parent, several accessors deep, moved after all of them have been taken
+	{
+		sig := "func(a uint8, m struct{ Rows [2]struct{ Cell struct{ Lo uint8; Hi uint64 }; Tag uint16 } }) (r struct{ P struct{ Q struct{ R struct{ X uint32; Y uint64 } } } })"
+		ctx := build.NewContext()
+		ctx.Function("f")
+		ctx.Signature(mksig(nil, sig))
+		cell := ctx.Param("m").Field("Rows").Index(1).Field("Cell")
+		lo, hi := cell.Field("Lo"), cell.Field("Hi")
+		rr := ctx.Return("r").Field("P").Field("Q").Field("R")
+		x, y := rr.Field("X"), rr.Field("Y")
+		ctx.Load(lo, ctx.GP8())
+		ctx.Load(hi, ctx.GP64())
+		ctx.Store(ctx.GP32(), x)
+		ctx.Store(ctx.GP64(), y)
+		f, err := ctx.Result()
+		idx := o.AddCase(Case{Key: "mov:address:held-parent", Desc: "loads of m.Rows[1].Cell.{Lo,Hi} and stores to r.P.Q.R.{X,Y}, each pair taken from one held parent component: " + sig, Input: map[string]any{"signature": sig}, Nontrivial: true})
+		want := []string{"MOVB m_Rows_1_Cell_Lo+32(FP)", "MOVQ m_Rows_1_Cell_Hi+40(FP)", "MOVL r_P_Q_R_X+56(FP)", "MOVQ r_P_Q_R_Y+64(FP)"}
+		var got []string
+		if err == nil {
+			for _, in := range f.Functions()[0].Instructions() {
+				t := in.Opcode
+				for _, op := range in.Operands {
+					if m, isM := op.(operand.Mem); isM {
+						t += " " + m.Asm()
+					}
+				}
+				got = append(got, t)
+			}
+		}
+		if err != nil || strings.Join(got, "; ") != strings.Join(want, "; ") {
+			o.Plan.GoViolations = append(o.Plan.GoViolations, GoViolation{Key: "mov:address:held-parent", Desc: fmt.Sprintf("case %d: the moves are %q (error %v); the components' widths and the Go compiler's frame layout give %q", idx, got, err, want), Replay: map[string]any{"signature": sig}})
+		}
+	}
 	var b strings.Builder
 	b.WriteString(progHeader + "From Avo Require Import Model.Forms Model.Mov Props.C08.\n")
 	fmt.Fprintf(&b, "Definition cases : list mov_case := %s.\n", cListNL(cases))
